@@ -2616,7 +2616,7 @@ package goatlang
 //@   requires v != nil && v.globals != nil
 //@   modifies *
 //@   nopanic
-//@   assume @0 slotsOf(vm.frame.Codes) == 0
+//@   assume @def:vm slotsOf(vm.frame.Codes) == 0
 //@ func (*VM).Func handler
 //@   assume vm.globals == v.globals && vm.globals != nil
 //@   assume forall j int :: 0 <= j && j < len(vm.frame.Codes) ==> posOK(vm.globals, vm.frame.Codes[j].Pos)
